@@ -9,10 +9,13 @@ tallies) on symbolic whole bundles.  For a bundle tag `X`:
   power_X = ebal['power'],  qsum_X = dz · (Σ pins + Σ coolant heating)
   exch_X  = lhs_X without sources and with every wall at its coolant's temperature
   byp_*   = the same for the bypass gap between two ducts.
+`Dassh.Gen.C01Ur` (same mechanism, low-fidelity regions): `ur_balance_<variant>` - enthalpy-flow change of the node(s) = tallied
+power + tallied wall heat, tallied power = q dz, conduction between the six nodes sums to zero.
 -/
 import Dassh.Gen.C01
 import Dassh.Gen.C01Roles
 import Dassh.Gen.C01All
+import Dassh.Gen.C01Ur
 import Mathlib.Algebra.Order.Field.Basic
 import Mathlib.Tactic.FieldSimp
 import Mathlib.Tactic.Ring
